@@ -18,6 +18,7 @@ LEVEL_TEXT = (
     "exactly one correctly addressed reply whose parent is the request header, and bumps the execution counter once"
     "; a message reaches the transport in one write (no interleaving of concurrent senders); the JSON text is ASCII-escaped before encoding; a closed subscriber leaves the broadcast set"
     "; the housekeeping loop survives a failing item; containers shared between the kernel's coroutines are not iterated in place across awaits"
+    '; the greeting handshake consumes exactly 64 bytes under fragmentation; every execute request is answered and its stdout flushed before idle; every non-None value is published'
 )
 LEVEL_NOTE = "frame contents are symbolic-size byte strings of representative lengths (boundary classes); asyncio streams, JSON and HMAC libraries are trusted; cell results are not decided"
 TECHNIQUE = "abstract interpretation of ZmqSocket writers composed with the reader on boundary-length frames (writer/reader agreement), flow analysis of shell_handler per request type (ordered send events), dominance of the signature comparison"
